@@ -138,6 +138,27 @@ def merrName (kind : MutKind) : MErr → String
   | .unregistered => "UnregisteredTarget"
   | .typeError => "TypeError"
 
+/-- the model's observation of a read -/
+def modelRead (cs : Classes) (h : Heap) (steps : List (String × Val)) (target : Val) : Obs :=
+  match evalSteps cs h steps target with
+  | .ok r => .ok r
+  | .error (.pae _) => .pae
+  | .error (.other c) => .other c
+
+/-- `Assign(path, val).glomit` / `Delete(path).glomit` with the destination path
+    `steps ++ [("P", key)]` -/
+def modelMutate (cs : Classes) (h : Heap) (steps : List (String × Val)) (key : Val) (kind : MutKind)
+    (target : Val) : Obs :=
+  match evalSteps cs h steps target with
+  | .error (.pae _) => .pae
+  | .error (.other c) => .other c
+  | .ok r =>
+    let f : Heap → Val → Except MErr Heap := match kind with
+      | .assign v => fun h d => assignOne cs h d key v
+      | .delete => fun h d => deleteOne cs h d key
+    let (h', e) := applyForEach (stars steps) f h r
+    .mutated h' (e.map (merrName kind))
+
 /-- The property on an observation: a read yields exactly the reference result (same entries —
     same addresses — in the same order and nesting); a write leaves exactly the heap the reference
     leaves and fails iff the reference fails, with the same error class. -/
@@ -166,12 +187,12 @@ def cellOK (cs : Classes) (h : Heap) : Obj → Bool
   | .dict c es => isA cs c "dict" &&
       es.all (fun e => e.1.hashable h && dictLookup es e.1 == some e.2)
   | .inst c as => (clsInfo cs c).hasDict && !(isA cs c "dict") && !(isA cs c "list") &&
-      !(isA cs c "tuple") &&
+      !(isA cs c "tuple") && !(isA cs c "set") && !(isA cs c "frozenset") &&
       as.all (fun p => (as.find? (·.1 == p.1)).map (·.2) == some p.2)
   | .list c _ => isA cs c "list" && !(isA cs c "dict")
   | .tuple c _ => isA cs c "tuple" && !(isA cs c "dict") && !(isA cs c "list")
-  | .set c _ => (clsInfo cs c).iterable && !(isA cs c "dict") &&
-      !(isA cs c "list") && !(isA cs c "tuple")
+  | .set c _ => (clsInfo cs c).iterable && (isA cs c "set" || isA cs c "frozenset") &&
+      !(isA cs c "dict") && !(isA cs c "list") && !(isA cs c "tuple")
 
 def heapWF (cs : Classes) (h : Heap) : Bool := h.all (cellOK cs h)
 
@@ -182,16 +203,5 @@ def scalarClasses : List String :=
 
 def classesWF (cs : Classes) : Bool :=
   scalarClasses.all (fun c => (keysH cs c).isNone && !(iterH cs c))
-
-/-- the value is an instance of a list / tuple / set *subclass* that has a `__dict__`:
-    `_ObjStyleKeys` then supplies a `keys` handler, `get` is the sequence accessor, and
-    `_extend_children` never falls back to iteration (see Props, `c14_star_counterexample`) -/
-def seqWithDict (cs : Classes) (h : Heap) (v : Val) : Bool :=
-  match v with
-  | .ref a =>
-    match h[a]? with
-    | some (.list c _) | some (.tuple c _) | some (.set c _) => (clsInfo cs c).hasDict
-    | _ => false
-  | _ => false
 
 end Glom.C14
